@@ -122,11 +122,6 @@ func VerifTokenTypeNames() []string {
 	return names
 }
 
-// VerifParseTemplateSource is ParseTemplateSource.
-func VerifParseTemplateSource(src []byte, format ast.Format, imported, noParseShow bool) (*ast.Tree, []ast.Node, error) {
-	return ParseTemplateSource(src, format, imported, noParseShow)
-}
-
 // VerifSyntaxErrorPosition returns the position of err if it is a *SyntaxError.
 func VerifSyntaxErrorPosition(err error) (ast.Position, bool) {
 	if e, ok := err.(*SyntaxError); ok {
